@@ -321,7 +321,7 @@ def _execute(sc, store):
                     lk = LinearIR.Linker()
                     lk.AddModule(mod)
                     prog = lk.Link()
-                    refs[key] = ("ok", prog, _observe(prog, sc))
+                    refs[key] = ("ok", prog, _observe(prog, sc), mod)
                 except Exception as e:
                     refs[key] = ("bad", f"link/observe: {type(e).__name__}: {e}")
         return refs[key]
@@ -393,7 +393,7 @@ def _execute(sc, store):
                 code, out, err = _child(
                     [os.path.join(_env["tree"], "nslc.py"), "-o", file_of(m), mods[m]["name"] + ".nsl"], store, st["hs"]
                 )
-                ok = code == 0 and "Wrote NSLIR file" in out
+                ok = code == 0 and os.path.exists(file_of(m)) and os.path.getsize(file_of(m)) > 0
                 log.add("compile", mod=mods[m]["name"], how="cli", hs=st["hs"], gen=gen, code=code)
                 if not ok:
                     ref = reference(gen)
@@ -445,7 +445,7 @@ def _execute(sc, store):
         ref = reference(gen)
         if ref[0] == "bad":
             return done("discard", "reference-bad", ref[1])
-        _, refprog, refobs = ref
+        _, refprog, refobs, refmod = ref
 
         if op == "link":
             add = [m for m in st["add"] if m < nm]
@@ -460,7 +460,7 @@ def _execute(sc, store):
             if added_and_imported:
                 bump("added_and_imported")
             if st["via"] == "nslr":
-                r = _link_nslr(sc, st, add, refprog, store, log, bump)
+                r = _link_nslr(sc, st, add, refmod, store, log, bump)
                 if r is not None:
                     return done(*r[:3], **r[3])
                 abstract.append(["nslr", names_add])
@@ -559,49 +559,51 @@ def _execute(sc, store):
     return done("ok")
 
 
-def _link_nslr(sc, st, add, refprog, store, log, bump):
-    """Link and run through the real nslr.py command line (one root module)."""
-    from nsl import VM
-
+def _link_nslr(sc, st, add, refmod, store, log, bump):
+    """Link and run through the real nslr.py command line (one root module).
+    The reference is the same command line run on the one-module program, so
+    the comparison does not depend on what nslr.py prints around the value."""
     mods = sc["modules"]
     root = mods[add[0]]["name"] + ".nslir"
+    one = "OneModuleReference__.nslir"
+    with open(one, "wb") as f:
+        pickle.dump(refmod, f)
     n = 0
-    for h in sc["hist"]:
-        if n >= 2:
-            break
-        f = next(x for x in sc["funcs"] if x["name"] == h["f"])
-        if any(v < 0 for v in h["args"].values()):
-            continue
-        n += 1
-        vm = VM.VirtualMachine(refprog)
-        args = {k: (int(v) if dict(f["params"])[k] == "int" else float(v)) for k, v in h["args"].items()}
-        try:
-            with core.Quiet():
-                val = vm.Invoke(h["f"], **copy.deepcopy(args))
-            exp = f"{h['f']} (" + ", ".join(map(str, args.values())) + ") = " + str(val)
-            expexc = None
-        except Exception as e:
-            exp, expexc = None, type(e).__name__
-        argv = [os.path.join(_env["tree"], "nslr.py"), "run", root, h["f"]] + [str(args[p]) for p, _t in f["params"]]
-        code, out, err = _child(argv, store, st["hs"])
-        bump("link_nslr")
+
+    def outcome(code, out, err):
         lines = [l for l in out.splitlines() if l.strip()]
-        log.add("nslr", root=root, fn=h["f"], hs=st["hs"], code=code, out=lines[-1:] if lines else [])
-        if expexc is not None:
-            got = err.strip().splitlines()[-1].split(":")[0] if err.strip() else ""
-            if code == 0 or got.split(".")[-1] != expexc:
-                return ("violation", "cli-mismatch", f"nslr {root} {h['f']}: expected {expexc}, exit {code} {got}",
-                        {"finding_key": "nslr-exc"})
-            continue
-        if code != 0 or not lines or lines[-1] != exp:
-            key = _exc_key_from_text(err) if "Traceback" in err else "output"
-            return (
-                "violation",
-                "cli-mismatch",
-                f"nslr.py run {root} {h['f']} {list(args.values())} (hash seed {st['hs']}): exit {code}, printed "
-                f"{lines[-1:] if lines else err.strip().splitlines()[-1:]}, one-module program gives {exp!r}",
-                {"finding_key": key},
-            )
+        if code == 0:
+            return ["ok", lines[-1] if lines else ""]
+        last = err.strip().splitlines()[-1] if err.strip() else ""
+        return ["fail", last.split(":")[0].split(".")[-1]]
+
+    try:
+        for h in sc["hist"]:
+            if n >= 2:
+                break
+            f = next(x for x in sc["funcs"] if x["name"] == h["f"])
+            if any(v < 0 for v in h["args"].values()):
+                continue
+            n += 1
+            args = [str(int(h["args"][p]) if t == "int" else float(h["args"][p])) for p, t in f["params"]]
+            tool = os.path.join(_env["tree"], "nslr.py")
+            exp = outcome(*_child([tool, "run", one, h["f"]] + args, store, st["hs"]))
+            code, out, err = _child([tool, "run", root, h["f"]] + args, store, st["hs"])
+            got = outcome(code, out, err)
+            bump("link_nslr")
+            log.add("nslr", root=root, fn=h["f"], hs=st["hs"], got=got)
+            if got != exp:
+                key = _exc_key_from_text(err) if "Traceback" in err else "output"
+                return (
+                    "violation",
+                    "cli-mismatch",
+                    f"nslr.py run {root} {h['f']} {args} (hash seed {st['hs']}) gives {got}, the same command on the "
+                    f"one-module program gives {exp}",
+                    {"finding_key": key},
+                )
+    finally:
+        if os.path.exists(one):
+            os.unlink(one)
     return None
 
 
